@@ -72,10 +72,40 @@ type opDesc struct {
 	// data of a write (data:64, data:half, data:tail = all but 64 bytes), or -- the host has the
 	// whole request -- when the first byte of the answer arrives (read/verify: req, write: data-all)
 	Cut string `json:"cut,omitempty"`
+	// Arg selects an extreme or illegal shape of the request (sent on a raw stream, without the
+	// client's own validation): see ext.go
+	Arg string `json:"arg,omitempty"`
+	// Off is the offset of a read
+	Off uint64 `json:"off,omitempty"`
+	// Mid is an RPC run between the two phases of a replenish (after the host has announced the
+	// deposits, before the renter signs)
+	Mid *opDesc `json:"mid,omitempty"`
+	// Blind: the harness does not read any host state after this step (no balance, no contract
+	// state); the ledger is judged at the end of the blind stretch
+	Blind bool `json:"blind,omitempty"`
 }
 
 func (o opDesc) String() string {
+	s := o.str()
+	if o.Arg != "" {
+		s += "[" + o.Arg + "]"
+	}
+	if o.Cut != "" && o.Kind != "read" && o.Kind != "write" && o.Kind != "verify" {
+		s += "[cut=" + o.Cut + "]"
+	}
+	if o.Mid != nil {
+		s += "{mid: " + o.Mid.String() + "}"
+	}
+	if o.Blind {
+		s += "*"
+	}
+	return s
+}
+
+func (o opDesc) str() string {
 	switch o.Kind {
+	case "balance":
+		return fmt.Sprintf("balance(a%d)", o.A)
 	case "fund":
 		var ds []string
 		for _, d := range o.Deps {
@@ -273,7 +303,7 @@ func (sc *scen) cost(o opDesc) *big.Int {
 	p := sc.h.prices
 	switch o.Kind {
 	case "read":
-		return bigCur(p.RPCReadSectorCost(o.Len).RenterCost())
+		return bigCur(p.RPCReadSectorCost(lenOf(o)).RenterCost())
 	case "write":
 		return bigCur(p.RPCWriteSectorCost(sectorLens[o.Sector]).RenterCost())
 	case "verify":
@@ -318,9 +348,21 @@ func (sc *scen) expected(o opDesc) expect {
 		ex.events = append(ex.events, event{Kind: "revise", K: c, Fr: total, To: new(big.Int).Set(total)})
 		return true
 	}
+	if illegalArg(o) {
+		// structurally invalid: refused before anything is looked at
+		if o.Kind == "read" || o.Kind == "write" || o.Kind == "verify" {
+			ex.cost = sc.cost(o)
+		}
+		return fail()
+	}
 	switch o.Kind {
+	case "balance":
+		ex.ok = true
+		ex.payload = []*big.Int{new(big.Int).Set(get(l.acct, o.A))}
 	case "expire":
-		l.contract[o.C].Revisable = false
+		if o.Mode != "height-1" {
+			l.contract[o.C].Revisable = false
+		}
 		ex.ok = true
 	case "fund":
 		if o.Signer != "ok" || len(o.Deps) == 0 {
@@ -466,6 +508,9 @@ type observed struct {
 	pool    map[int]*big.Int
 	con     [2]cview
 	dataOK  bool
+	blind   bool
+	unread  bool // the host completed an RPC whose answer the renter did not read
+	locked  int  // index+1 of a contract the host can no longer lock (left locked by a handler)
 }
 
 type stepRec struct {
@@ -486,6 +531,8 @@ type scen struct {
 	init    *ledger
 	trace   []stepRec
 	counts  map[string]int
+	inBlind bool
+	noCoq   bool // the scenario contains steps the model does not express (monitor-only)
 }
 
 // keys 1-3 are accounts, 4-7 pools (any key may occasionally play the other role)
@@ -607,9 +654,20 @@ func (sc *scen) exec(o opDesc) (coqOp string, ok bool, errStr string, payload []
 	}
 	switch o.Kind {
 	case "expire":
-		coqOp = fmt.Sprintf("Expire %d", o.C)
+		if o.Mode != "height-1" {
+			coqOp = fmt.Sprintf("Expire %d", o.C)
+		}
 		fin(h.expire(o.C, o.Mode))
+	case "balance":
+		b, err := rhp4.RPCAccountBalance(ctx, h.transport, sc.acc(o.A))
+		fin(err)
+		if err == nil {
+			payload = []*big.Int{bigCur(b)}
+		}
 	case "fund":
+		if o.Arg != "" || o.Cut != "" {
+			return sc.execRawFund(o)
+		}
 		contract := h.contracts[o.C]
 		signer, signerID := h.renter[o.C], renterKeyID(o.C)
 		switch o.Signer {
@@ -641,6 +699,9 @@ func (sc *scen) exec(o opDesc) (coqOp string, ok bool, errStr string, payload []
 			}
 		}
 	case "replA", "replP":
+		if o.Arg != "" || o.Cut != "" || o.Mid != nil {
+			return sc.execRawRepl(o, nil)
+		}
 		pool := o.Kind == "replP"
 		contract := h.contracts[o.C]
 		rk := h.renter[o.C]
@@ -755,14 +816,22 @@ func (sc *scen) exec(o opDesc) (coqOp string, ok bool, errStr string, payload []
 		coqOp = fmt.Sprintf("%s [%s]", name, strings.Join(terms, "; "))
 		var err error
 		switch {
-		case honest && attach:
+		case o.Cut != "":
+			var msg bytes.Buffer
+			if attach {
+				proto4.WriteRequest(&msg, proto4.RPCAttachPoolsID, &proto4.RPCAttachPoolsRequest{Attachments: atts})
+			} else {
+				proto4.WriteRequest(&msg, proto4.RPCDetachPoolsID, &proto4.RPCDetachPoolsRequest{Detachments: dets})
+			}
+			err = sc.sendCut(msg.Bytes(), o.Cut)
+		case honest && attach && o.Arg == "":
 			// the real client signs with the pool keys itself
 			var in []rhp4.PoolAttachInput
 			for _, e := range o.Es {
 				in = append(in, rhp4.PoolAttachInput{Account: sc.acc(e.A), PoolKey: sc.keys[e.P]})
 			}
 			err = rhp4.RPCAttachPools(ctx, h.transport, in, time.Hour)
-		case honest:
+		case honest && o.Arg == "":
 			var in []rhp4.PoolDetachInput
 			for _, e := range o.Es {
 				sk := e.P
@@ -843,20 +912,21 @@ func (sc *scen) exec(o opDesc) (coqOp string, ok bool, errStr string, payload []
 			fin(err)
 			return
 		}
+		if o.Arg != "" {
+			return sc.execPricedArg(o, tok, tterm)
+		}
 		switch o.Kind {
 		case "read":
 			coqOp = fmt.Sprintf("ReadSec %d %s %d %s", o.A, tterm, o.Sector, z(cost))
 			var buf bytes.Buffer
 			if o.Token == "ok" {
-				_, err = rhp4.RPCReadSector(ctx, h.transport, h.prices, tok, &buf, root, 0, o.Len)
+				_, err = rhp4.RPCReadSector(ctx, h.transport, h.prices, tok, &buf, root, o.Off, o.Len)
 			} else {
 				var resp proto4.RPCReadSectorResponse
 				err = rawRoundtrip(h.transport, proto4.RPCReadSectorID, &proto4.RPCReadSectorRequest{Prices: h.prices, Token: tok, Root: root, Offset: 0, Length: o.Len}, &resp, nil)
 			}
 			if err == nil && o.Token == "ok" {
-				want := make([]byte, o.Len)
-				copy(want, sc.data[o.Sector])
-				dataOK = bytes.Equal(buf.Bytes(), want)
+				dataOK = bytes.Equal(buf.Bytes(), sc.sectorBytes(o.Sector, o.Off, o.Len))
 			}
 		case "write":
 			coqOp = fmt.Sprintf("WriteSec %d %s %d %s", o.A, tterm, o.Sector, z(cost))
@@ -910,6 +980,13 @@ func (sc *scen) sectorIdx(r types.Hash256) int {
 
 // observe projects the call log and the host's own state onto the model's vocabulary.
 func (sc *scen) observe(ob *observed) error {
+	if err := sc.observeCalls(ob); err != nil || ob.blind {
+		return err
+	}
+	return sc.observeState(ob)
+}
+
+func (sc *scen) observeCalls(ob *observed) error {
 	h := sc.h
 	h.rec.quiesce()
 	ob.calls = h.rec.take()
@@ -943,6 +1020,11 @@ func (sc *scen) observe(ob *observed) error {
 			ob.events = append(ob.events, event{Kind: "store", K: sc.sectorIdx(c.Root)})
 		}
 	}
+	return nil
+}
+
+func (sc *scen) observeState(ob *observed) error {
+	h := sc.h
 	var accts []proto4.Account
 	for _, k := range allKeys {
 		accts = append(accts, sc.acc(k))
@@ -962,7 +1044,12 @@ func (sc *scen) observe(ob *observed) error {
 	for i := range h.contracts {
 		rs, err := h.state(i)
 		if err != nil {
-			return err
+			// the Contractor knows the contract (it was formed through it) but cannot lock
+			// it: a handler has left it locked
+			ob.locked = i + 1
+			last := h.rec.last[h.contracts[i].ID]
+			ob.con[i] = cview{last.RevisionNumber, bigCur(last.RenterOutput.Value), bigCur(last.HostOutput.Value), sc.ref.contract[i].Revisable}
+			continue
 		}
 		rev := rs.Revision
 		ob.con[i] = cview{rev.RevisionNumber, bigCur(rev.RenterOutput.Value), bigCur(rev.HostOutput.Value), rs.Revisable}
@@ -1004,7 +1091,7 @@ func (sc *scen) monitor(o opDesc, before *ledger, ex expect, ob *observed) (stri
 		}
 	}
 	for i, c := range ob.calls {
-		if c.Kind != "read" && c.Kind != "store" {
+		if c.Kind != "read" && c.Kind != "store" || c.Err != nil {
 			continue
 		}
 		switch {
@@ -1029,7 +1116,7 @@ func (sc *scen) monitor(o opDesc, before *ledger, ex expect, ob *observed) (stri
 		}
 		served := false
 		for _, c := range ob.calls[debitAt:] {
-			if c.Kind == "read" || c.Kind == "store" {
+			if (c.Kind == "read" || c.Kind == "store") && c.Err == nil {
 				served = true
 			}
 		}
@@ -1069,6 +1156,9 @@ func (sc *scen) monitor(o opDesc, before *ledger, ex expect, ob *observed) (stri
 		case "debit":
 			debited.Add(debited, bigCur(c.Cost))
 		}
+	}
+	if ob.locked > 0 {
+		return "contract-left-locked", describe("afterwards contract %d cannot be locked any more: a handler left it locked", ob.locked-1)
 	}
 	// C. the sum of all balances moves by credits minus debits only
 	delta := new(big.Int).Sub(sumBal(ob.acct, ob.pool), sumBal(before.acct, before.pool))
@@ -1181,20 +1271,46 @@ func (sc *scen) monitor(o opDesc, before *ledger, ex expect, ob *observed) (stri
 
 // step executes, observes and judges one operation.
 func (sc *scen) step(o opDesc) (*failure, error) {
+	if sc.inBlind && !o.Blind {
+		// the blind stretch ends: the host's ledger is read for the first time since it began
+		if f, err := sc.reconcile(); f != nil || err != nil {
+			return f, err
+		}
+	}
+	if o.Mid != nil {
+		return sc.stepMid(o)
+	}
 	before := sc.ref
 	ex := sc.expected(o)
 	var ob observed
 	var coqOp string
+	ob.blind = o.Blind
 	coqOp, ob.ok, ob.err, ob.payload, ob.dataOK = sc.exec(o)
 	if err := sc.observe(&ob); err != nil {
 		return nil, err
 	}
-	if o.Cut != "" {
+	if o.Blind {
+		sc.inBlind = true
+		sc.counts["blind-steps"]++
+		// nothing is read: the balance-based monitors see what the reference expects
+		ob.acct, ob.pool, ob.con = ex.after.acct, ex.after.pool, ex.after.contract
+		if o.Cut != "" && len(ob.events) == 0 {
+			ob.acct, ob.pool, ob.con = before.acct, before.pool, before.contract
+		}
+	}
+	if o.Arg != "" {
+		sc.counts["arg:"+o.Kind+":"+o.Arg]++
+		if illegalArg(o) {
+			coqOp = "Cut (" + placeholderOp(o, coqOp) + ")"
+		}
+	}
+	if o.Cut != "" && !ob.ok {
 		// An abandoned RPC. Unless the host had everything it needs to complete the RPC on its
 		// own (the whole request of a read / verify, the whole data of a write), nothing may
 		// have been debited, read or stored. If it had, it may have completed the RPC (then
 		// the step is judged as that complete RPC) or not have started it.
-		complete := o.Kind != "write" && o.Cut == "req" || o.Kind == "write" && o.Cut == "data-all"
+		priced := o.Kind == "read" || o.Kind == "write" || o.Kind == "verify"
+		complete := priced && o.Kind != "write" && o.Cut == "req" || o.Kind == "write" && o.Cut == "data-all" || o.Cut == "resp-unread" || o.Cut == "sig-sent"
 		changed := len(ob.events) > 0
 		for _, k := range allKeys {
 			if get(ob.acct, k).Cmp(get(before.acct, k)) != 0 || get(ob.pool, k).Cmp(get(before.pool, k)) != 0 {
@@ -1217,11 +1333,16 @@ func (sc *scen) step(o opDesc) (*failure, error) {
 			return &failure{kind, fmt.Sprintf("%s: the stream was closed before the host had the whole request (cut %s), yet the host recorded %s and the balances %s", o, o.Cut, eventsString(ob.events), map[bool]string{true: "changed", false: "did not change"}[sumBal(ob.acct, ob.pool).Cmp(sumBal(before.acct, before.pool)) != 0]), len(sc.trace) - 1}, nil
 		case changed:
 			ob.ok = true // the host carried the RPC out
+			ob.unread = true
+			ex.payload = nil // nobody read the answer
 			sc.counts["cut-completed-by-host"]++
 		default:
-			coqOp = "Cut (" + coqOp + ")"
+			coqOp = "Cut (" + placeholderOp(o, coqOp) + ")"
 			ex = expect{after: sc.ref.clone(), boundary: 99, cost: ex.cost}
 		}
+	}
+	if ex.cost != nil && ex.cost.Sign() == 0 && ex.ok {
+		sc.counts["free-service"]++
 	}
 	sc.trace = append(sc.trace, stepRec{op: o, coqOp: coqOp, obs: ob})
 	sc.counts["op:"+o.Kind]++
@@ -1262,6 +1383,31 @@ func (sc *scen) step(o opDesc) (*failure, error) {
 	return nil, nil
 }
 
+// reconcile reads the host's ledger after a blind stretch and compares it with the reference.
+func (sc *scen) reconcile() (*failure, error) {
+	sc.inBlind = false
+	var ob observed
+	if err := sc.observeState(&ob); err != nil {
+		return nil, err
+	}
+	sc.counts["blind-stretches"]++
+	at := len(sc.trace) - 1
+	if ob.locked > 0 {
+		return &failure{"contract-left-locked", fmt.Sprintf("contract %d cannot be locked any more", ob.locked-1), at}, nil
+	}
+	for _, k := range allKeys {
+		if get(ob.acct, k).Cmp(get(sc.ref.acct, k)) != 0 || get(ob.pool, k).Cmp(get(sc.ref.pool, k)) != 0 {
+			return &failure{"blind-stretch-ledger-differs", fmt.Sprintf("after a stretch of RPCs without any read of the host's ledger, key %d holds account %v pool %v; the reference ledger holds account %v pool %v", k, get(ob.acct, k), get(ob.pool, k), get(sc.ref.acct, k), get(sc.ref.pool, k)), at}, nil
+		}
+	}
+	for i := range ob.con {
+		if c, r := ob.con[i], sc.ref.contract[i]; c.RevNum != r.RevNum || c.Renter.Cmp(r.Renter) != 0 || c.Host.Cmp(r.Host) != 0 {
+			return &failure{"blind-stretch-ledger-differs", fmt.Sprintf("after a blind stretch contract %d is at revision %d renter %v, the reference at revision %d renter %v", i, c.RevNum, c.Renter, r.RevNum, r.Renter), at}, nil
+		}
+	}
+	return nil, nil
+}
+
 // ---- Coq case ----------------------------------------------------------------------
 
 func balList(m map[int]*big.Int) string {
@@ -1283,6 +1429,9 @@ func (sc *scen) coqCase() string {
 		}
 	}
 	for _, st := range sc.trace {
+		if st.coqOp == "" {
+			continue // a query the model does not have (RPCAccountBalance)
+		}
 		var pl, cv []string
 		for _, p := range st.obs.payload {
 			pl = append(pl, z(p))
@@ -1290,8 +1439,12 @@ func (sc *scen) coqCase() string {
 		for i, c := range st.obs.con {
 			cv = append(cv, fmt.Sprintf("(%d, (%d, %s, %s, %v))", i, c.RevNum, z(c.Renter), z(c.Host), c.Revisable))
 		}
-		steps = append(steps, fmt.Sprintf("(%s,\n   Obs %v [%s] %s %s %s [%s])", st.coqOp, st.obs.ok, strings.Join(pl, "; "),
+		steps = append(steps, fmt.Sprintf("(%s,\n   Obs %v %v [%s] %s %s %s [%s])", st.coqOp, st.obs.ok, !st.obs.unread, strings.Join(pl, "; "),
 			eventsString(st.obs.events), balList(st.obs.acct), balList(st.obs.pool), strings.Join(cv, "; ")))
+		if st.obs.blind {
+			// nothing was read after this step
+			steps[len(steps)-1] = fmt.Sprintf("(%s,\n   Obs %v %v [%s] %s [] [] [])", st.coqOp, st.obs.ok, !st.obs.unread, strings.Join(pl, "; "), eventsString(st.obs.events))
+		}
 	}
 	return fmt.Sprintf("mk_case [%s] [%s] [\n  %s]", strings.Join(cons, "; "), strings.Join(secs, "; "), strings.Join(steps, ";\n  "))
 }
@@ -1556,7 +1709,10 @@ func (g *gen) service(sc *scen) []opDesc {
 	if cur.Cmp(want) > 0 && o.Kind == "read" {
 		// read more so that the cost exceeds what is there, then top up exactly
 		unit := sc.cost(opDesc{Kind: "read", Len: 4096})
-		k := new(big.Int).Div(cur, unit).Uint64() + 1
+		k := uint64(proto4.SectorSize)
+		if unit.Sign() > 0 {
+			k = new(big.Int).Div(cur, unit).Uint64() + 1
+		}
 		if k <= proto4.SectorSize/4096 {
 			o.Len = k * 4096
 			cost = sc.cost(o)
@@ -1936,6 +2092,13 @@ func runPlanned(h *hostEnv, r *rng.R, plan func(*scen) []opDesc) (*scen, []opDes
 // finish asks the host for the balances over the wire (RPCAccountBalance) and
 // compares them with the reference ledger.
 func (sc *scen) finish() *failure {
+	if sc.inBlind {
+		if f, err := sc.reconcile(); f != nil {
+			return f
+		} else if err != nil {
+			return &failure{"harness-error", err.Error(), len(sc.trace) - 1}
+		}
+	}
 	ctx, cancel := context.WithTimeout(context.Background(), 20*time.Second)
 	defer cancel()
 	for _, k := range allKeys[:3] {
@@ -1973,8 +2136,15 @@ func runGenerated(h *hostEnv, r *rng.R, n int) (*scen, []opDesc, *failure, error
 	}
 	g := &gen{r: r}
 	var ops []opDesc
+	blindScenario := r.Chance(1, 3)
 	for i := 0; len(ops) < n; i++ {
-		for _, o := range g.next(sc, i) {
+		next := g.next(sc, i)
+		if blindScenario && r.Chance(1, 6) {
+			next = append(next, opDesc{Kind: "balance", A: 1 + r.Intn(3)})
+		}
+		for _, o := range next {
+			// in a blind scenario the host's state is read only now and then
+			o.Blind = blindScenario && o.Kind != "expire" && !r.Chance(1, 6)
 			ops = append(ops, o)
 			f, err := sc.step(o)
 			if err != nil || f != nil {
@@ -2057,7 +2227,8 @@ type priceSpec struct {
 }
 
 func pricesFor(r *rng.R) priceSpec {
-	return priceSpec{uint64(1 + r.Intn(2)), pick(r, []uint64{1, 3, 100}), pick(r, []uint64{1, 2, 100})}
+	// ingress and egress may be free; one host in a few charges a lot
+	return priceSpec{uint64(1 + r.Intn(2)), pick(r, []uint64{0, 1, 3, 100, 1 << 40}), pick(r, []uint64{0, 1, 2, 100, 1 << 40})}
 }
 
 func (p priceSpec) table() proto4.HostPrices {
@@ -2096,7 +2267,7 @@ func runC15(c *hx.Ctx) {
 
 	// the concurrent section runs first, while all cores are free
 	runConcurrent := func(seed *rng.R) bool {
-		h, err := setupHost(seed, pricesFor(seed))
+		h, err := setupHost(seed, priceSpec{1, 1, 1})
 		if err != nil {
 			res.Fail("harness-setup", err.Error(), nil)
 			return false
@@ -2162,8 +2333,8 @@ func runC15(c *hx.Ctx) {
 	}
 
 	const workers = 8
-	specs, dead, cuts, forged := directedSpecs(), deadSpecs(), cutSpecs(), forgeSpecs()
-	nScen := len(corpus()) + len(specs) + len(dead) + len(cuts) + len(forged) + c.Scale(130, 4000)
+	specs, dead, cuts, forged, ext := directedSpecs(), deadSpecs(), cutSpecs(), forgeSpecs(), extPlans()
+	nScen := len(corpus()) + len(specs) + len(dead) + len(cuts) + len(forged) + len(ext) + c.Scale(100, 4000)
 	opsPer := c.Scale(22, 30)
 	seeds := make([]*rng.R, nScen)
 	hostSeeds := make([]*rng.R, workers)
@@ -2213,6 +2384,11 @@ func runC15(c *hx.Ctx) {
 					sc, ops, f, err = runPlanned(h, r.Fork(), cuts[j].plan)
 				} else if j -= len(cuts); j < len(forged) {
 					sc, ops, f, err = runPlanned(h, r.Fork(), func(*scen) []opDesc { return forged[j].plan() })
+				} else if j -= len(forged); j < len(ext) {
+					sc, ops, f, err = runPlanned(h, r.Fork(), ext[j].plan)
+					if sc != nil {
+						sc.counts["ext:"+ext[j].family]++
+					}
 				} else {
 					sc, ops, f, err = runGenerated(h, r.Fork(), opsPer)
 				}
@@ -2221,6 +2397,10 @@ func runC15(c *hx.Ctx) {
 					continue
 				}
 				out.ops, out.counts, out.coq = ops, sc.counts, sc.coqCase()
+				if sc.noCoq {
+					out.coq = ""
+					sc.counts["monitor-only-scenarios"]++
+				}
 				out.nontriv = nontrivial(sc.counts)
 				if f != nil {
 					out.fail = f
@@ -2255,7 +2435,9 @@ func runC15(c *hx.Ctx) {
 		for _, k := range keys {
 			res.CountN(k, out.counts[k])
 		}
-		cases = append(cases, out.coq)
+		if out.coq != "" {
+			cases = append(cases, out.coq)
+		}
 		if i < 2 {
 			var s []string
 			for _, o := range out.ops {
